@@ -387,14 +387,14 @@ def check_corelang(case) -> Outcome:
 CLAUSES = [
     Clause('setops-exhaustive', check_case, kind='exhaustive', enumerate=_enum_setops,
            space='all pairs of subsets of 3 assets as operands of union/intersection/difference and nested forms'),
-    Clause('transitive-exhaustive', check_case, kind='exhaustive', enumerate=_enum_transitive,
+    Clause('transitive-exhaustive', check_case, kind='exhaustive', enumerate=_enum_transitive, memory_is_violation=True,
            space='all 2^9 link relations of a self-association on 3 assets under the transitive operator'),
     Clause('subtype-exhaustive', check_case, kind='exhaustive', enumerate=_enum_subtype,
            space='all type assignments (3-level chain) x non-empty link subsets for the subtype filter'),
     Clause('random', check_case, kind='random',
            strategy=lambda: lang_and_model({'max_assets': 5, 'max_expr_depth': 3},
                                            {'max_assets': 6, 'attackers': False, 'defenses': False}),
-           budget={'quick': 8000, 'thorough': 80000}),
+           budget={'quick': 8000, 'thorough': 80000}, memory_is_violation=True),
     Clause('corelang-models', check_corelang, kind='random',
            strategy=lambda: corelang_models(max_assets=7, attackers=False, defenses=False).map(lambda m: {'model': m}),
            budget={'quick': 640, 'thorough': 8000}),
